@@ -3,16 +3,16 @@
 # /repo and the quick check of the properties it concerns is run against it (PCFG_REPO); the last line of
 # each run goes to RESULTS.txt.  m* must end in VIOLATION, h* in OK.  About 45 s per run.
 #   sh docs/tie_tests/T18/run_all.sh [name-prefix ...]
-V=/tmp/vb_T18
-SC=/tmp/sc_T18_all
-OUT=/tmp/sc_T18_out
+V=${V:-/tmp/vb_R18}
+SC=/tmp/sc_R18_all
+OUT=/tmp/sc_R18_out
 D=$V/docs/tie_tests/T18
 props_of() {
   case $1 in
-    m01*|m06*|m09*|m10*) echo "C19";;
+    m01*|m06*|m09*|m10*|m13*) echo "C19";;
     m02*|m03*|m05*|m08*) echo "C06";;
     m04*) echo "C05 C19";;
-    m07*) echo "C05";;
+    m07*|m11*|m12*) echo "C05";;
     h*) echo "C19 C06 C05 C03";;
     *) echo "C06";;
   esac
@@ -26,10 +26,10 @@ for diff in $D/*.diff; do
   if [ $# -gt 0 ]; then ok=0; for p in "$@"; do case $name in $p*) ok=1;; esac; done; [ $ok = 1 ] || continue; fi
   git -C $SC checkout -q -- . && (cd $SC && patch -p1 --binary -s < $diff) || { echo "$name: patch failed" | tee -a $RES; continue; }
   for prop in $(props_of $name); do
-    cd $V && rm -rf $OUT && PCFG_REPO=$SC PCFG_OUT=$OUT ./check $prop --tier quick > /tmp/sc_T18_run.log 2>&1
-    last=$(tail -1 /tmp/sc_T18_run.log)
-    why=$(grep -m1 -E "^VIOLATION" /tmp/sc_T18_run.log | cut -c1-200)
-    det=$(grep -o -m1 -E "no longer equals the model: [^:]*|refuses the current source[^\[]*|what: .*" /tmp/sc_T18_run.log | head -1 | cut -c1-260)
+    cd $V && rm -rf $OUT && PCFG_REPO=$SC PCFG_OUT=$OUT ./check $prop --tier quick > /tmp/sc_R18_run.log 2>&1
+    last=$(tail -1 /tmp/sc_R18_run.log)
+    why=$(grep -m1 -E "^VIOLATION" /tmp/sc_R18_run.log | cut -c1-200)
+    det=$(grep -o -m1 -E "no longer equals the model: [^:]*|refuses the current source[^\[]*|what: .*" /tmp/sc_R18_run.log | head -1 | cut -c1-260)
     echo "$name [$prop]: $last | $why | $det" | tee -a $RES
   done
 done
